@@ -33,10 +33,7 @@ Theorem C07_batches_are_rows :
   concat (map b_codes (pgen_batches legacy c g)) = map v_codes (vrows g)
   /\ concat (map b_cts (pgen_batches legacy c g)) = map (v_ct legacy) (vrows g)
   /\ concat (map batch_rows (pgen_batches legacy c g)) = map (v_stored (planes g)) (vrows g).
-Proof.
-  intros legacy c g Hc. split; [apply batches_codes; exact Hc|].
-  split; [apply batches_cts; exact Hc|apply batches_stored; exact Hc].
-Qed.
+Proof. exact batches_are_rows. Qed.
 Print Assumptions C07_batches_are_rows.
 
 (* the read loop alone, for every selection (the empty one included: no range(0,0,0)) *)
